@@ -137,9 +137,10 @@ var kinds = []string{"players.list", "servers.list", "sp.range", "players.list",
 // unregistered), the gate inside the critical section.
 var gatesOf = map[string][]string{
 	"players": {"w.enter", "reg.register.enter", "reg.unregister.enter", "reg.register.insert", "reg.unregister.locked",
-		"list.players.iter", "list.players.step", "list.disconnectall.iter", "list.disconnectall.step"},
-	"servers": {"w.enter", "w.mid", "srv.register.insert", "srv.unregister.delete", "list.servers.iter", "list.servers.step"},
-	"sp":      {"w.enter", "w.mid", "sp.add.locked", "sp.remove.locked", "list.range.iter", "list.range.step"},
+		"list.players.enter", "list.players.iter", "list.players.step",
+		"list.disconnectall.enter", "list.disconnectall.iter", "list.disconnectall.step"},
+	"servers": {"w.enter", "w.mid", "srv.register.insert", "srv.unregister.delete", "list.servers.enter", "list.servers.iter", "list.servers.step"},
+	"sp":      {"w.enter", "w.mid", "sp.add.locked", "sp.remove.locked", "list.range.enter", "list.range.iter", "list.range.step"},
 }
 
 var writeEvents = map[string]bool{"reg.inserted": true, "reg.deleted": true, "reg.register.insert": true,
